@@ -271,6 +271,14 @@ func NewKernel(ctx context.Context, log *slog.Logger, cfg KernelConfig) (*Kernel
 		initState.NextRound.Height, initState.NextRound.Round,
 	)
 
+	// The stored height and round are the last thing written when a vote or proposed header
+	// moves the mirror, so after an interrupted run the stores may already hold the votes
+	// that justify leaving the stored position.
+	// Those votes will not be offered as new again, so re-evaluate the view shifts now.
+	if err := k.recheckViewShifts(ctx, &initState); err != nil {
+		return nil, err
+	}
+
 	if err := k.updateObservers(ctx, &initState); err != nil {
 		return nil, err
 	}
@@ -282,6 +290,28 @@ func NewKernel(ctx context.Context, log *slog.Logger, cfg KernelConfig) (*Kernel
 
 func (k *Kernel) Wait() {
 	<-k.done
+}
+
+// recheckViewShifts applies, at most once, the view shift that the votes
+// loaded into the initial views already justify.
+func (k *Kernel) recheckViewShifts(ctx context.Context, s *kState) error {
+	h, r := s.Voting.Height, s.Voting.Round
+
+	if err := k.checkVotingPrecommitViewShift(ctx, s); err != nil {
+		return err
+	}
+	if s.Voting.Height != h || s.Voting.Round != r {
+		return nil
+	}
+
+	if err := k.checkNextRoundPrecommitViewShift(ctx, s); err != nil {
+		return err
+	}
+	if s.Voting.Height != h || s.Voting.Round != r {
+		return nil
+	}
+
+	return k.checkPrevoteViewShift(ctx, s, ViewIDNextRound)
 }
 
 func (k *Kernel) mainLoop(ctx context.Context, s *kState, wd *gwatchdog.Watchdog) {
